@@ -166,6 +166,7 @@ def run(chk):
                             if n.get("k") == "call" and callee(n).get("name") == "row" and is_this_mem(n.get("obj"), M.m_coeffs):
                                 used.add(pp(n["args"][0]))
                         # residue of every row index modulo K, with locals read through (k * K + 3, left_row + K, ...)
+                        STATICS[cls] = {s_["name"]: s_.get("v") for s_ in F.record(cls)["statics"]}
                         zero_rows = []
                         for n in walk(g["body"]):
                             if n.get("k") == "call" and callee(n).get("name") == "row" and is_this_mem(n.get("obj"), M.m_coeffs):
@@ -312,10 +313,14 @@ def is_lhs(f, node):
     return False
 
 
+STATICS = {}
+
+
 def row_residue(node, f, K):
     """(row index) mod K for an index built from literals, + - *, the function's integer locals (read through their single
     initialiser) and loop variables (free integers); None when the index is not K * (integer expression) + constant."""
     decls = {n["id"]: n for n in walk(f["body"]) if n.get("k") == "decl"}
+    statics = dict(STATICS.get(f.get("cls"), {}))
     assigned = {strip_var(n.get("l")) for n in walk(f["body"]) if n.get("k") == "assign"} | {strip_var(n.get("e")) for n in walk(f["body"]) if n.get("k") == "un" and n.get("op") in ("++", "--")}
 
     def ev(n, depth=0):
@@ -334,6 +339,16 @@ def row_residue(node, f, K):
             if a is None or b is None:
                 return None
             return {"+": a + b, "-": a - b, "*": a * b}[n["op"]]
+        if n.get("v") is not None and k != "lit":
+            try:
+                return Integer(int(str(n["v"])))          # a compile-time constant of the class (COEFF_NUM, ORDER)
+            except ValueError:
+                pass
+        if k in ("var", "mem", "static", "declref") and statics.get(n.get("name") or n.get("field")) is not None:
+            try:
+                return Integer(int(str(statics[n.get("name") or n.get("field")])))
+            except ValueError:
+                pass
         if k == "var":
             d = decls.get(n.get("id"))
             if d is not None and d.get("init") is not None and n.get("id") not in assigned and (d.get("ty") or {}).get("c") == "int" and (d.get("ty") or {}).get("const"):
